@@ -762,7 +762,7 @@ func TestC05(t *testing.T) {
 	rng := r.Rand("messages")
 	m.pool = c02.KeyPool(rng, 14)
 
-	perKind := r.N(200, 2500)
+	perKind := r.N(200, 4000)
 	fullCorrupt := r.N(25, 200)
 	allValues := r.N(0, 6)
 	nMut := r.N(6, 10)
@@ -913,7 +913,7 @@ func TestC05(t *testing.T) {
 	r.Require("streams_ok", r.N(200, 3000))
 	r.Require("at_limit_accepted", 1)
 	r.Require("over_limit_rejected", 1)
-	r.Require("hostile_decodes", r.N(30000, 400000))
+	r.Require("hostile_decodes", r.N(30000, 700000))
 	r.Require("hostile_ok", 100)
 	r.Require("hostile_err", 10000)
 }
